@@ -128,12 +128,30 @@ pub fn gen_case(ch: &mut Chooser) -> FileCase {
         displays_before_fault = body[..pos].iter().filter(|f| render_form(f).starts_with("(display")).count();
         body.insert(pos, Form::Raw(raw.to_string()));
         fault_index = Some(forms.len() + pos);
+    } else if fault_roll == 5 && ch.chance(1, 2) {
+        // the offending identifier is one that a user macro's template introduces: the diagnostic points into the form
+        // that uses the macro (the definition, an earlier form, succeeds)
+        let (def, use_) = *ch.pick(&TEMPLATE_FAULTS);
+        let mut pos = ch.below(body.len() + 1);
+        let at = ch.below(pos + 1);
+        body.insert(at, Form::Raw(def.to_string()));
+        pos += 1;
+        displays_before_fault = body[..pos].iter().filter(|f| render_form(f).starts_with("(display")).count();
+        body.insert(pos, Form::Raw(use_.to_string()));
+        fault_index = Some(forms.len() + pos);
     } else if fault_roll <= 4 {
         let kind = *ch.pick(&KINDS);
-        let context = *ch.pick(&CONTEXTS);
+        // one time in five the faulting operation sits in a procedure defined by an earlier form (only for the kinds of
+        // error that are located through the failing form: the others carry the position of the offending identifier)
+        let context = if !matches!(kind, "unbound-read" | "unbound-set" | "non-procedure") && ch.chance(1, 5) { "deferred" } else { *ch.pick(&CONTEXTS) };
         let derived = ch.chance(1, 2);
         let ff = fault_form_with(ch, kind, context, derived);
-        let pos = ch.below(body.len() + 1);
+        let mut pos = ch.below(body.len() + 1);
+        if let Some(p) = &ff.pre {
+            let at = ch.below(pos + 1);
+            body.insert(at, strip_ticks(&[p.clone()])[0].clone());
+            pos += 1;
+        }
         displays_before_fault = body[..pos].iter().filter(|f| render_form(f).starts_with("(display")).count();
         let stripped = strip_ticks(&[ff.form]);
         body.insert(pos, stripped[0].clone());
@@ -228,6 +246,26 @@ pub fn run_binary(args: &[&str], cwd: &std::path::Path, stdin: Option<&str>) -> 
     RunResult { stdout: String::from_utf8_lossy(&out.stdout).to_string(), stderr, code: out.status.code() }
 }
 
+/// (definition of a macro whose template mentions an identifier that is unbound / not a procedure, a form using it)
+const TEMPLATE_FAULTS: [(&str, &str); 4] = [
+    ("(define-syntax call-helper (syntax-rules () ((call-helper x) (undefined-helper x))))", "(display (call-helper 1))"),
+    ("(define-syntax read-global (syntax-rules () ((read-global) (list 1 undefined-global))))", "(display (list 0 (read-global)))"),
+    ("(define-syntax apply-five (syntax-rules () ((apply-five x) (five x))))", "(display (apply-five 1))"),
+    ("(define-syntax call-helper2 (syntax-rules () ((call-helper2 x y) (+ x (undefined-helper y)))))", "(if #t (display (call-helper2 1 2)))"),
+];
+
+fn template_fault_error(use_text: &str) -> Option<RErr> {
+    TEMPLATE_FAULTS.iter().find(|(_, u)| *u == use_text).map(|(d, _)| {
+        if d.contains("undefined-helper") {
+            RErr::Unbound("undefined-helper".into())
+        } else if d.contains("undefined-global") {
+            RErr::Unbound("undefined-global".into())
+        } else {
+            RErr::NotProcedure
+        }
+    })
+}
+
 const LIB_TEXT: &str = "(define-library (mylib helper)\n  (import (scheme base))\n  (export helper-double)\n  (begin (define (helper-double x) (* 2 x))))\n";
 
 fn model_run(c: &FileCase) -> (String, Option<(usize, RErr)>, bool) {
@@ -246,7 +284,13 @@ fn model_run(c: &FileCase) -> (String, Option<(usize, RErr)>, bool) {
         },
     );
     for (i, f) in c.forms.iter().enumerate() {
-        if let Form::Raw(_) = f {
+        if let Form::Raw(t) = f {
+            if TEMPLATE_FAULTS.iter().any(|(d, _)| d == t) {
+                continue;
+            }
+            if let Some(e) = template_fault_error(t) {
+                return (m.output.clone(), Some((i, e)), false);
+            }
             return (m.output.clone(), Some((i, RErr::Syntax)), false);
         }
         match m.eval_form(f) {
@@ -387,7 +431,7 @@ pub fn judge(c: &FileCase) -> Report {
                     return rep;
                 }
             }
-            if !matches!(&c.forms[*i], Form::Raw(_)) && loc.is_none() {
+            if (!matches!(&c.forms[*i], Form::Raw(_)) || matches!(&c.forms[*i], Form::Raw(t) if template_fault_error(t).is_some())) && loc.is_none() {
                 // (every run-time fault of the generated kinds is located on the pinned tree: C15)
                 rep.fail("diagnostic-without-location", format!("diagnostic {:?} for a run-time fault carries no LINE:COL", line));
                 return rep;
